@@ -335,6 +335,23 @@ pub fn exec_case<S: Sch>(case: &Case, out: &mut String, with_acc: bool) {
                                     "enc" => {
                                         b.add_value(unhx(f[1]), &RawEnc(unhx(f[2])));
                                     }
+                                    "enr" => {
+                                        // the value is itself a record (`Enr: Encodable`)
+                                        let raw = unhx(f[2]);
+                                        let mut sl: &[u8] = &raw;
+                                        match Enr::<HKey<S::K>>::decode(&mut sl) {
+                                            Ok(v) => b.add_value(unhx(f[1]), &v),
+                                            Err(_) => b.add_value(unhx(f[1]), &RawEnc(raw)),
+                                        };
+                                    }
+                                    "enrs" => {
+                                        let raw = unhx(f[2]);
+                                        let mut sl: &[u8] = &raw;
+                                        match Vec::<Enr<HKey<S::K>>>::decode(&mut sl) {
+                                            Ok(v) => b.add_value(unhx(f[1]), &v),
+                                            Err(_) => b.add_value(unhx(f[1]), &RawEnc(raw)),
+                                        };
+                                    }
                                     "bytes" => {
                                         b.add_value(unhx(f[1]), &unhx(f[2]).as_slice());
                                     }
@@ -466,7 +483,8 @@ pub fn exec_case<S: Sch>(case: &Case, out: &mut String, with_acc: bool) {
                     };
                     let r = guard(|| {
                         format!(
-                            "eq={} eqr={} heq={} cc={} ccr={} enceq={} pairseq={}",
+                            "ne={} eq={} eqr={} heq={} cc={} ccr={} enceq={} pairseq={}",
+                            (*e != *o) as u8,
                             (*e == *o) as u8,
                             (*o == *e) as u8,
                             (h(e) == h(o)) as u8,
@@ -486,7 +504,28 @@ pub fn exec_case<S: Sch>(case: &Case, out: &mut String, with_acc: bool) {
             }
             "load" => {
                 if let Some(o) = slots.get(get("slot")) {
-                    *e = o.clone();
+                    // every way the standard library copies one record over another
+                    let how = get("how").to_string();
+                    let r = guard(|| match how.as_str() {
+                        "clone_from" => e.clone_from(o),
+                        "vec_clone_from" => {
+                            let mut v = vec![e.clone()];
+                            v.clone_from(&vec![o.clone()]);
+                            *e = v.pop().unwrap();
+                        }
+                        "clone_from_slice" => std::slice::from_mut(e).clone_from_slice(std::slice::from_ref(o)),
+                        "clone_into" => {
+                            let mut v = vec![e.clone()];
+                            std::slice::from_ref(o).clone_into(&mut v);
+                            *e = v.pop().unwrap();
+                        }
+                        "to_owned" => *e = o.to_owned(),
+                        _ => *e = o.clone(),
+                    });
+                    if r.is_none() {
+                        writeln!(out, "out res=panic").unwrap();
+                        continue;
+                    }
                     writeln!(out, "out res=ok").unwrap();
                     out.push_str(&rec_line(e));
                     out.push('\n');
@@ -583,6 +622,23 @@ pub fn exec_case<S: Sch>(case: &Case, out: &mut String, with_acc: bool) {
                     let r = match get("vt") {
                         "rawenc" => e.insert(&k, &RawEnc(unhx(get("val"))), key),
                         "phantom" => e.insert(&k, &std::marker::PhantomData::<u64>, key),
+                        "enr" => {
+                            // the value is itself a record (`Enr: Encodable`)
+                            let raw = unhx(get("val"));
+                            let mut sl: &[u8] = &raw;
+                            match Enr::<HKey<S::K>>::decode(&mut sl) {
+                                Ok(v) => e.insert(&k, &v, key),
+                                Err(_) => e.insert(&k, &RawEnc(raw), key),
+                            }
+                        }
+                        "enrs" => {
+                            let raw = unhx(get("val"));
+                            let mut sl: &[u8] = &raw;
+                            match Vec::<Enr<HKey<S::K>>>::decode(&mut sl) {
+                                Ok(v) => e.insert(&k, &v, key),
+                                Err(_) => e.insert(&k, &RawEnc(raw), key),
+                            }
+                        }
                         "uint" => e.insert(&k, &get("val").parse::<u64>().unwrap(), key),
                         "strs" => {
                             let l: Vec<Bytes> = parse_list(get("val"))
